@@ -102,6 +102,22 @@ func observeSet(s sets.Set[int], probe []int) Ev {
 
 func (x *setInst) Observe() Ev { return observeSet(x.s, x.probe) }
 
+// observation of an operand / result of the algebra family: an observer that panics or hangs on a changed implementation must
+// end in a verdict, not in the death of the harness - the observation is then a well-typed empty one and `bad` is reported
+func observeSetSafe(kind string, s sets.Set[int], probe []int, bad *bool, msg *string) Ev {
+	var o Ev
+	ci := guard("alg", kind, "Observe", func() { o = observeSet(s, probe) })
+	if ci.Panic || o == nil {
+		*bad = true
+		if *msg == "" {
+			*msg = "observer panicked: " + ci.PMsg
+		}
+		return Ev{"vals": []int{}, "size": 0, "empty": true, "name": "", "cnone": true, "has": [][]any{}, "iter": []int{},
+			"each": []int{}, "jvals": []int{}, "ordered": false}
+	}
+	return o
+}
+
 func (x *setInst) Do(c Call) []any {
 	s := x.s
 	switch c.Op {
@@ -455,8 +471,10 @@ func jobAlg(j *jobCtx) {
 						if gi.Panic || a == nil || b == nil {
 							continue
 						}
+						obad, omsg := false, ""
+						obs := func(s sets.Set[int]) Ev { return observeSetSafe(c.kind, s, probe, &obad, &omsg) }
 						e := Ev{"fam": "alg", "kind": c.kind, "cfg": cfg, "op": op, "alias": alias, "rs": 1, "timeout": false,
-							"a0": observeSet(a, probe), "b0": observeSet(b, probe)}
+							"a0": obs(a), "b0": obs(b)}
 						var r sets.Set[int]
 						fa0, fb0 := fpOf(purityString(a)), fpOf(purityString(b))
 						ci := invoke(e, func() { r = algebra(c.kind, a, b, op) })
@@ -470,7 +488,10 @@ func jobAlg(j *jobCtx) {
 							emit(e)
 							continue
 						}
-						e["a1"], e["b1"], e["r1"] = observeSet(a, probe), observeSet(b, probe), observeSet(r, probe)
+						e["a1"], e["b1"], e["r1"] = obs(a), obs(b), obs(r)
+						if obad { // an observer of an operand or of the result did not return: the call is not "completed"
+							e["panic"], e["pmsg"] = true, omsg
+						}
 						e["pure"] = fa0 == fpOf(purityString(a)) && fb0 == fpOf(purityString(b))
 						// independence: mutate each of the three objects in turn and observe all three
 						muts := []Ev{}
@@ -490,8 +511,10 @@ func jobAlg(j *jobCtx) {
 										objs[who].Clear()
 									}
 								})
-								muts = append(muts, Ev{"who": who + 1, "op": m.Op, "vs": ints(m.Vs), "panic": mi.Panic,
-									"a": observeSet(a, probe), "b": observeSet(b, probe), "r": observeSet(r, probe)})
+								mbad, mmsg := false, ""
+								mo := func(s sets.Set[int]) Ev { return observeSetSafe(c.kind, s, probe, &mbad, &mmsg) }
+								oa, ob, or := mo(a), mo(b), mo(r)
+								muts = append(muts, Ev{"who": who + 1, "op": m.Op, "vs": ints(m.Vs), "panic": mi.Panic || mbad, "a": oa, "b": ob, "r": or})
 							}
 						}
 						e["mut"] = muts
